@@ -18,13 +18,13 @@ BOUNDS = {
     "quick": {"entries per input": "2 + 2 (location ids, lead times, times), also 2 + 1", "other dims": "singletons"},
     "thorough": {"entries per input": "3 + 3 and 3 + 2", "other dims": "singletons"},
 }
-ASSUMPTIONS = ["location ids and times are integers; lead times are reals or NaN", "times lie in a 3-day window (calendar model forks per day)"]
+ASSUMPTIONS = ["location ids (0..10^7) and times are integers; lead times are reals or NaN", "times lie in a 3-day window (calendar model forks per day)"]
 STUBS = ["inputs are in-memory verif.input.Input subclasses (text rows keyed by coordinates: C09)"]
 
 
 def sym_coords(S, dim, name, n):
     if dim == "location":
-        return [S.integer("%s.id%d" % (name, i), lo=0, hi=50) for i in range(n)]
+        return [S.integer("%s.id%d" % (name, i), lo=0, hi=10 ** 7) for i in range(n)]
     if dim == "time":
         return [S.integer("%s.t%d" % (name, i), lo=0, hi=3 * 86400 - 1) for i in range(n)]
     return [S.real("%s.lt%d" % (name, i), nan=True, lo=0, hi=240) for i in range(n)]
